@@ -4,19 +4,23 @@ import GateModel.Gen.C08
 C08 — Online-mode players are admitted only after verified encryption and session auth.
 
 `run cfg env {} ins` is the output trace of the login machine for the packet sequence `ins` on a fresh
-connection, for ANY configuration `cfg`, ANY session server `env.sess` and ANY inputs (an encryption response
-carries what its fields decrypt to — RSA is a parameter).
+connection, for ANY configuration `cfg` (online flag; per username: the PreLogin verdict and the number of login
+plugin messages the PreLogin subscribers send, which DEFER the completion of the login start until the client
+has answered them all), ANY session server `env.sess` and ANY inputs (an encryption response carries what its
+fields decrypt to — RSA is a parameter).
 
-  * `admit_requires_auth`: when authentication is required, a trace that contains a LoginSuccess or a
-    registration at all begins with the complete chain  PreLogin, EncryptionRequest(nonce), EnableEncryption(sec),
-    hasJoined(name, sec), profile event, [SetCompression], Login event, registered, LoginSuccess(online)  and the
-    inputs contain the login start (name, nonce) and the encryption response that decrypts to exactly (nonce, sec),
-    the session server says online for (name, sec), `sec` has an AES key length, `name` matches the pattern;
-    no admission follows the chain;
+  * `admit_requires_auth`: a trace that contains a LoginSuccess or a registration of a username for which
+    authentication is required (online mode or forced online for THAT name, not forced offline for THAT name)
+    begins with the complete chain  PreLogin(name), its plugin messages, consumer calls, EncryptionRequest(nonce),
+    EnableEncryption(sec), hasJoined(name, sec), profile event, [SetCompression], Login event, registered(name),
+    LoginSuccess(name, online)  and the inputs contain the login start (name, nonce) and the encryption response
+    that decrypts to exactly (nonce, sec), the session server says online for (name, sec), `sec` has an AES key
+    length, `name` matches the pattern; nothing after the chain is such an admission;
+  * `success_requires_session_auth`: the admitted name is the name of that chain;
   * `at_most_one_success` (any configuration);
-  * out-of-order / repeated / foreign packets close without any other output, a closed connection stays
-    silent and closed, plugin responses are ignored;
-  * what forced-offline / offline-mode does (`offline_admission`), for contrast;
+  * out-of-order / repeated / foreign packets close without any other output — ALSO while the completion is
+    deferred (`deferred_*`); a closed connection stays silent and closed; plugin responses with ids that are
+    not outstanding are ignored;
   * regenerated source facts (`shape_*`).
 -/
 namespace Gate.C08.Props
@@ -24,38 +28,44 @@ open Gate Gate.C08
 
 /-! ### admission requires the whole chain -/
 
-theorem admit_requires_auth (cfg : Cfg) (env : Env) (ins : List In) (hn : needsAuth cfg = true)
-    (hadm : ((run cfg env {} ins).2.any isAdmission) = true) :
-    ∃ name nonce sec tail,
+theorem admit_requires_auth (cfg : Cfg) (env : Env) (ins : List In)
+    (hadm : ((run cfg env {} ins).2.any (isAuthAdm cfg)) = true) :
+    ∃ (name : Bytes) (cs : List Int) (nonce sec : Bytes) (tail : List Out),
       (run cfg env {} ins).2 =
-        [.preLoginEvent name, .encReq nonce, .encOn sec, .hasJoined name sec] ++ admitSeq cfg name true ++ tail ∧
-      tail.any isAdmission = false ∧
+        .preLoginEvent name :: (msgIds (cfg.preMsgs name)).map .pluginMsg ++ cs.map .consumed ++
+          [.encReq nonce, .encOn sec, .hasJoined name sec] ++ admitSeq cfg name true ++ tail ∧
+      tail.any (isAuthAdm cfg) = false ∧
       In.login name nonce ∈ ins ∧ In.encResp (some nonce) (some sec) ∈ ins ∧
-      env.sess name sec = .online ∧ keyLenOk sec.length = true ∧ validName name = true := by
-  have h0 : Inv cfg env [] {} [] := ⟨fun _ => rfl, by intro h; simp at h, Or.inl rfl⟩
-  have h := (inv_run cfg env hn ins [] {} [] h0).good
+      env.sess name sec = .online ∧ keyLenOk sec.length = true ∧ validName name = true ∧
+      needsAuth cfg name = true := by
+  have h0 : Inv cfg env [] {} [] :=
+    ⟨fun _ => rfl, by intro h; simp at h, by intro h; simp at h, Or.inl rfl⟩
+  have h := (inv_run cfg env ins [] {} [] h0).good
   simp only [List.nil_append] at h
-  rcases h with h | ⟨name, nonce, sec, tail, ho, ht, h1, h2, h3, h4, h5⟩
+  rcases h with h | ⟨name, cs, nonce, sec, tail, ho, ht, h1, h2, h3, h4, h5, h6⟩
   · rw [h] at hadm; cases hadm
-  · exact ⟨name, nonce, sec, tail, by simpa [chain] using ho, ht, h1, h2, h3, h4, h5⟩
+  · exact ⟨name, cs, nonce, sec, tail, by simpa [chain, preamble, List.append_assoc] using ho, ht, h1, h2, h3, h4, h5, h6⟩
 
-/-- in particular: LoginSuccess in the trace ⇒ the session server confirmed the join for the client's
-    username and the server id of the decrypted secret, and the client returned the issued token -/
-theorem success_requires_session_auth (cfg : Cfg) (env : Env) (ins : List In) (hn : needsAuth cfg = true)
-    (n : Bytes) (o : Bool) (h : Out.success n o ∈ (run cfg env {} ins).2) :
+/-- LoginSuccess for a name that requires authentication ⇒ the client sent a login start with THAT name, returned
+    the token issued for it, and the session server confirmed the join for that name and the decrypted secret -/
+theorem success_requires_session_auth (cfg : Cfg) (env : Env) (ins : List In)
+    (n : Bytes) (o : Bool) (h : Out.success n o ∈ (run cfg env {} ins).2) (hn : needsAuth cfg n = true) :
     ∃ nonce sec, In.login n nonce ∈ ins ∧ In.encResp (some nonce) (some sec) ∈ ins ∧
       env.sess n sec = .online ∧ o = true := by
-  have hadm : ((run cfg env {} ins).2.any isAdmission) = true := by
-    rw [List.any_eq_true]; exact ⟨_, h, rfl⟩
-  obtain ⟨name, nonce, sec, tail, ho, ht, h1, h2, h3, _, _⟩ := admit_requires_auth cfg env ins hn hadm
+  have hadm : ((run cfg env {} ins).2.any (isAuthAdm cfg)) = true := by
+    rw [List.any_eq_true]; exact ⟨_, h, by simp [isAuthAdm, hn]⟩
+  obtain ⟨name, cs, nonce, sec, tail, ho, ht, h1, h2, h3, _, _, _⟩ := admit_requires_auth cfg env ins hadm
   rw [ho] at h
   have hnt : Out.success n o ∉ tail := by
     intro hm
     have := List.any_eq_false.1 ht _ hm
-    simp [isAdmission] at this
+    simp [isAuthAdm, hn] at this
   have : Out.success n o ∈ admitSeq cfg name true := by
-    simp only [List.mem_append] at h
-    rcases h with (h | h) | h
+    simp only [List.mem_append, List.mem_cons, List.mem_map] at h
+    rcases h with ((((h | h) | h) | h) | h) | h
+    · cases h
+    · obtain ⟨_, _, h⟩ := h; cases h
+    · obtain ⟨_, _, h⟩ := h; cases h
     · simp at h
     · exact h
     · exact absurd h hnt
@@ -68,7 +78,7 @@ theorem success_requires_session_auth (cfg : Cfg) (env : Env) (ins : List In) (h
 theorem at_most_one_success (cfg : Cfg) (env : Env) (ins : List In) :
     successCount (run cfg env {} ins).2 ≤ 1 := by
   have gen : ∀ (ins : List In) (s : St),
-      successCount (run cfg env s ins).2 + (if 2 ≤ rank s.phase then 1 else 0) ≤ 1 := by
+      successCount (run cfg env s ins).2 + (if 3 ≤ rank s.phase then 1 else 0) ≤ 1 := by
     intro ins
     induction ins with
     | nil => intro s; simp [run, successCount]; split <;> omega
@@ -88,40 +98,69 @@ theorem at_most_one_success (cfg : Cfg) (env : Env) (ins : List In) :
 
 /-! ### out-of-order, repeated and foreign packets -/
 
-/-- a login start in any state but loginPacketExpected closes the connection, nothing else happens -/
+/-- a login start in any state but loginPacketExpected closes the connection, nothing else happens —
+    in particular while the completion of the first login start is deferred -/
 theorem second_login_closes (cfg : Cfg) (env : Env) (s : St) (name nonce : Bytes)
-    (h : s.phase = .encSent ∨ s.phase = .successSent) :
+    (h : s.phase = .waiting ∨ s.phase = .encSent ∨ s.phase = .successSent) :
     step cfg env s (.login name nonce) = ({ phase := .closed }, [.close]) := step_login_wrong h
 
-/-- an encryption response in any state but encryptionRequestSent (none requested yet, or a second one) closes -/
+/-- an encryption response in any state but encryptionRequestSent (none requested yet — also while the request
+    is deferred —, or a second one) closes -/
 theorem unexpected_encryption_response_closes (cfg : Cfg) (env : Env) (s : St) (tok secret : Option Bytes)
-    (h : s.phase = .expect ∨ s.phase = .successSent) :
+    (h : s.phase = .expect ∨ s.phase = .waiting ∨ s.phase = .successSent) :
     step cfg env s (.encResp tok secret) = ({ phase := .closed }, [.close]) := step_enc_wrong h
+
+/-- while the completion is deferred EVERY packet other than a plugin response closes the connection -/
+theorem deferred_completion_closes_on_any_login_packet (cfg : Cfg) (env : Env) (s : St) (i : In)
+    (hp : s.phase = .waiting) (hi : ∀ id, i ≠ .pluginResp id) :
+    step cfg env s i = ({ phase := .closed }, [.close]) := by
+  cases i with
+  | login n v => exact step_login_wrong (Or.inl hp)
+  | encResp t c => exact step_enc_wrong (Or.inr (Or.inl hp))
+  | pluginResp id => exact absurd rfl (hi id)
+  | ack => exact step_ack_wrong (Or.inr (Or.inl hp))
+  | other => exact step_other_open (Or.inr (Or.inl hp))
+
+/-- the red-team scenario, for every configuration: a second login start while a PreLogin plugin message of the
+    first is unanswered closes the connection; whatever follows (the late answer included), nothing more is
+    emitted — no second PreLogin event, no admission under either name -/
+theorem deferred_second_login_never_admits (cfg : Cfg) (env : Env) (n1 v1 n2 v2 : Bytes) (rest : List In)
+    (hd : decodable n1 = true) (hv : validName n1 = true) (hden : cfg.preLogin n1 ≠ .denied)
+    (hk : cfg.preMsgs n1 ≠ 0) :
+    (run cfg env {} (.login n1 v1 :: .login n2 v2 :: rest)).2 =
+      .preLoginEvent n1 :: (msgIds (cfg.preMsgs n1)).map .pluginMsg ++ [.close] ∧
+    (run cfg env {} (.login n1 v1 :: .login n2 v2 :: rest)).1.phase = .closed := by
+  have h1 : step cfg env {} (.login n1 v1) = _ := (step_login_expect rfl).trans (loginStep_wait hd hv hden hk)
+  have h2 : step cfg env { phase := .waiting, name := n1, verify := v1, outstanding := msgIds (cfg.preMsgs n1) }
+      (.login n2 v2) = closeWith [.close] := step_login_wrong (Or.inl rfl)
+  simp only [run, h1, h2, closeWith_fst, closeWith_snd, run_closed cfg env rest { phase := .closed } rfl]
+  simp
 
 /-- a wrong or undecryptable token, or an undecryptable secret, closes without enabling encryption or asking
     the session server -/
 theorem bad_token_or_secret_closes (cfg : Cfg) (env : Env) (s : St) (tok secret : Option Bytes)
     (hp : s.phase = .encSent) (h : tok ≠ some s.verify ∨ secret = none) :
     step cfg env s (.encResp tok secret) = ({ phase := .closed }, [.close]) := by
+  rw [step_enc_encSent hp]
   cases he : s.verify.isEmpty with
-  | true => exact step_enc_noverify hp he
+  | true => exact encStep_noverify he
   | false =>
     rcases h with h | h
-    · exact step_enc_badtoken hp he h
+    · exact encStep_badtoken he h
     · subst h
       by_cases ht : tok = some s.verify
-      · subst ht; exact step_enc_nosecret hp he
-      · exact step_enc_badtoken hp he ht
+      · subst ht; exact encStep_nosecret he
+      · exact encStep_badtoken he ht
 
-theorem early_ack_closes (cfg : Cfg) (env : Env) (s : St) (h : s.phase = .expect ∨ s.phase = .encSent) :
+theorem early_ack_closes (cfg : Cfg) (env : Env) (s : St)
+    (h : s.phase = .expect ∨ s.phase = .waiting ∨ s.phase = .encSent) :
     step cfg env s .ack = ({ phase := .closed }, [.close]) := step_ack_wrong h
 
 theorem foreign_packet_closes (cfg : Cfg) (env : Env) (s : St)
-    (h : s.phase = .expect ∨ s.phase = .encSent ∨ s.phase = .successSent) :
+    (h : s.phase = .expect ∨ s.phase = .waiting ∨ s.phase = .encSent ∨ s.phase = .successSent) :
     step cfg env s .other = ({ phase := .closed }, [.close]) := step_other_open h
 
-/-- the state machine never goes back: after any packet the login-start state is gone for good unless
-    nothing but plugin responses arrived -/
+/-- the state machine never goes back -/
 theorem phase_monotone (cfg : Cfg) (env : Env) (s : St) (i : In) :
     rank s.phase ≤ rank (step cfg env s i).1.phase := (step_success cfg env s i).1
 
@@ -133,29 +172,46 @@ theorem closed_is_final (cfg : Cfg) (env : Env) (ins₁ ins₂ : List In)
   rw [run_append, run_closed cfg env ins₂ _ h]
   simp [h]
 
-/-- plugin responses (no message outstanding) are ignored in every state -/
-theorem plugin_response_ignored (cfg : Cfg) (env : Env) (s : St) (id : Int) :
-    step cfg env s (.pluginResp id) = (s, []) := rfl
+/-- plugin responses are ignored unless they answer an outstanding PreLogin message -/
+theorem plugin_response_ignored (cfg : Cfg) (env : Env) (s : St) (id : Int)
+    (h : s.phase ≠ .waiting ∨ s.outstanding.contains id = false) :
+    step cfg env s (.pluginResp id) = (s, []) := by
+  by_cases hp : s.phase = .waiting
+  · rcases h with h | h
+    · exact absurd hp h
+    · rw [step_plugin_waiting hp]; exact pluginStep_unknown h
+  · exact step_plugin_other hp
 
 /-! ### contrast: without required authentication the login start alone admits -/
 
-theorem offline_admission (cfg : Cfg) (env : Env) (name nonce : Bytes) (hn : needsAuth cfg = false)
-    (hd : cfg.preLogin ≠ .denied) (hv : validName name = true) (hdec : decodable name = true) :
+theorem offline_admission (cfg : Cfg) (env : Env) (name nonce : Bytes) (hn : needsAuth cfg name = false)
+    (hd : cfg.preLogin name ≠ .denied) (hk : cfg.preMsgs name = 0)
+    (hv : validName name = true) (hdec : decodable name = true) :
     (run cfg env {} [.login name nonce]).2 = .preLoginEvent name :: admitSeq cfg name false := by
-  have h := step_login_offline (cfg := cfg) (env := env) (s := {}) (nonce := nonce) rfl hdec hv hd hn
-  simp [run, h]
+  have h : step cfg env {} (.login name nonce) = _ := (step_login_expect rfl).trans (loginStep_now hdec hv hd hk)
+  have hc := complete_offline (cfg := cfg) (s := { phase := .waiting, name := name, verify := nonce, outstanding := [] }) hn
+  simp [run, h, hc]
 
 /-! ### non-vacuity -/
 
 def demoEnv : Env := ⟨fun n s => if n = [65, 98] ∧ s.length = 16 then .online else .offline⟩
 def demoSecret : Bytes := List.replicate 16 7
+def demoCfg : Cfg := ⟨true, fun _ => .allowed, fun _ => 0, true⟩
+/-- PreLogin subscribers force offline mode for the name "sv" only and probe every login with one plugin message -/
+def demoCfg2 : Cfg := ⟨true, fun n => if n = [115, 118] then .forceOffline else .allowed, fun _ => 1, true⟩
 
-example : needsAuth ⟨true, .allowed, true⟩ = true ∧
-    ((run ⟨true, .allowed, true⟩ demoEnv {} [.login [65, 98] [1, 2, 3, 4], .pluginResp 3,
-        .encResp (some [1, 2, 3, 4]) (some demoSecret)]).2.any isAdmission) = true := by decide
-example : ((run ⟨true, .allowed, true⟩ demoEnv {} [.login [65, 98] [1, 2, 3, 4],
+example : needsAuth demoCfg [65, 98] = true ∧
+    ((run demoCfg demoEnv {} [.login [65, 98] [1, 2, 3, 4], .pluginResp 3,
+        .encResp (some [1, 2, 3, 4]) (some demoSecret)]).2.any (isAuthAdm demoCfg)) = true := by decide
+example : ((run demoCfg demoEnv {} [.login [65, 98] [1, 2, 3, 4],
         .encResp (some [1, 2, 3, 5]) (some demoSecret)]).2) = [.preLoginEvent [65, 98], .encReq [1, 2, 3, 4], .close] := by decide
-example : (run ⟨true, .allowed, true⟩ demoEnv {} [.login [65, 98] [1, 2, 3, 4], .login [65, 98] [1, 2, 3, 4]]).1.phase = .closed := by decide
+example : (run demoCfg demoEnv {} [.login [65, 98] [1, 2, 3, 4], .login [65, 98] [1, 2, 3, 4]]).1.phase = .closed := by decide
+/-- deferred completion: the encryption request is issued only after the plugin message was answered -/
+example : (run demoCfg2 demoEnv {} [.login [65, 98] [1, 2, 3, 4], .pluginResp 1]).2 =
+    [.preLoginEvent [65, 98], .pluginMsg 1, .consumed 1, .encReq [1, 2, 3, 4]] := by decide
+/-- the red-team sequence: forced-offline service account, then a second name, then the late answer -/
+example : (run demoCfg2 demoEnv {} [.login [115, 118] [1, 2, 3, 4], .login [65, 98] [5, 6, 7, 8], .pluginResp 1]).2 =
+    [.preLoginEvent [115, 118], .pluginMsg 1, .close] := by decide
 
 /-! ### source shape (regenerated from /repo on every run) -/
 
